@@ -96,10 +96,12 @@ type ContractSet struct {
 	Axioms   []*Axiom
 	RawSMT   []string
 	PkgMode  map[string]map[string]string // pkg name -> mode settings
+	Globals  map[string]*SType            // abstract global state components (stdout, fs, ...)
+	GlobOrd  []string
 }
 
 func NewContractSet() *ContractSet {
-	return &ContractSet{Funcs: map[string]*Contract{}, SpecFuns: map[string]*SpecFun{}, PkgMode: map[string]map[string]string{}}
+	return &ContractSet{Funcs: map[string]*Contract{}, SpecFuns: map[string]*SpecFun{}, PkgMode: map[string]map[string]string{}, Globals: map[string]*SType{}}
 }
 
 var reLoop = regexp.MustCompile(`^loop\s+(\d+)(?:\s+index\s+(\w+))?\s*:?$`)
@@ -271,6 +273,18 @@ func (cs *ContractSet) LoadContractFile(path string, pkgName string) error {
 			cur = nil
 		case "smt":
 			cs.RawSMT = append(cs.RawSMT, rest)
+		case "global":
+			fs := strings.SplitN(rest, " ", 2)
+			if len(fs) != 2 {
+				return fail(i, "global NAME TYPE")
+			}
+			ty, err := ParseSType(strings.TrimSpace(fs[1]))
+			if err != nil {
+				return fail(i, "%v", err)
+			}
+			cs.Globals[fs[0]] = ty
+			cs.GlobOrd = append(cs.GlobOrd, fs[0])
+			cur = nil
 		default:
 			if cur == nil {
 				return fail(i, "clause %q outside a func", kw)
